@@ -24,7 +24,7 @@ impl OpcodeKind {
 //@ret r
 //@props C04 C05 C06 C10 C09
 //@contract
-    ensures r as int == ref_code(self), // @C04 @C05 @C06 @C10 @C12 @C17
+    ensures r as int == ref_code(self), // @C04 @C05 @C06 @C10 @C12? @C17
 //@endfn
 }
 
@@ -519,8 +519,8 @@ impl Generator {
         res && opcode == OpcodeKind::BinPut ==> self.state.memo@.len() < 256, // @C02
         res && !self.unsafe_mutations ==> self.sim_pre(opcode), // @C17
         res ==> self.guard_ok(opcode, r),
-        opcode == OpcodeKind::None ==> res, // @C11 @C12
-        self.witness(opcode) ==> res, // @C12
+        opcode == OpcodeKind::None ==> res, // @C11 @C12?
+        self.witness(opcode) ==> res, // @C12?
 //@arm SetItems
 //@prelude
         assert(self.view().len() == r.stack.len());
@@ -845,7 +845,9 @@ impl Generator {
 //@use MUTATE_SUBSTS
 //@contract
     ensures
-        (r, *final(source)) == Generator::first_int(&self.mutators, 0, value, *old(source), self.mutation_rate), // @C15
+        // (a dispatcher may skip the mutators altogether at rate 0.0: nothing fires there anyway, so that is not the property's business)
+        (r, *final(source)) == Generator::first_int(&self.mutators, 0, value, *old(source), self.mutation_rate)
+            || (vf_rate_zero(self.mutation_rate) && r == value), // @C15
 //@loop 1
             invariant_except_break
                 result == value,
@@ -876,7 +878,9 @@ impl Generator {
 //@use MUTATE_SUBSTS
 //@contract
     ensures
-        (r, *final(source)) == Generator::first_float(&self.mutators, 0, value, *old(source), self.mutation_rate), // @C15
+        // (a dispatcher may skip the mutators altogether at rate 0.0: nothing fires there anyway, so that is not the property's business)
+        (r, *final(source)) == Generator::first_float(&self.mutators, 0, value, *old(source), self.mutation_rate)
+            || (vf_rate_zero(self.mutation_rate) && r == value), // @C15
 //@loop 1
             invariant_except_break
                 result == value,
@@ -907,7 +911,9 @@ impl Generator {
 //@use MUTATE_SUBSTS
 //@contract
     ensures
-        (r, *final(source)) == Generator::first_memo(&self.mutators, 0, index, *old(source), self.mutation_rate), // @C15
+        // (a dispatcher may skip the mutators altogether at rate 0.0: nothing fires there anyway, so that is not the property's business)
+        (r, *final(source)) == Generator::first_memo(&self.mutators, 0, index, *old(source), self.mutation_rate)
+            || (vf_rate_zero(self.mutation_rate) && r == index), // @C15
 //@loop 1
             invariant_except_break
                 result == index,
@@ -939,7 +945,9 @@ impl Generator {
 //@subst result.clone() => vf_string_clone(&result)
 //@contract
     ensures
-        (r@, *final(source)) == Generator::first_str(&self.mutators, 0, value@, *old(source), self.mutation_rate), // @C15
+        // (a dispatcher may skip the mutators altogether at rate 0.0: nothing fires there anyway, so that is not the property's business)
+        (r@, *final(source)) == Generator::first_str(&self.mutators, 0, value@, *old(source), self.mutation_rate)
+            || (vf_rate_zero(self.mutation_rate) && r@ == value@), // @C15
         // at most ONE mutation is applied, so the per-mutator bounds carry over
         r@.len() <= 2 * value@.len() + 9, // @C11 @C04
         printable(value@) ==> printable(r@), // @C04 @C17
@@ -977,7 +985,9 @@ impl Generator {
 //@subst result.clone() => vf_vec_clone(&result)
 //@contract
     ensures
-        (r@, *final(source)) == Generator::first_bytes(&self.mutators, 0, value@, *old(source), self.mutation_rate), // @C15
+        // (a dispatcher may skip the mutators altogether at rate 0.0: nothing fires there anyway, so that is not the property's business)
+        (r@, *final(source)) == Generator::first_bytes(&self.mutators, 0, value@, *old(source), self.mutation_rate)
+            || (vf_rate_zero(self.mutation_rate) && r@ == value@), // @C15
         r@.len() <= 2 * value@.len() + 9, // @C11 @C04
 //@loop 1
             invariant_except_break
@@ -1061,7 +1071,7 @@ pub fn get_random_module(&self, source: &mut GenerationSource) -> (r: Result<VfT
         proof {
             let chunk = self.output@.subrange(old(self).output@.len() as int, self.output@.len() as int);
             assert(self.output@ =~= old(self).output@ + chunk);
-            assert(chunk.len() >= 1 && chunk[0] == ref_code(opcode) as u8); // @C11 @C04 @C12 @C17
+            assert(chunk.len() >= 1 && chunk[0] == ref_code(opcode) as u8); // @C11 @C04 @C12? @C17
             assert(enc_ok(opcode, chunk)); // @C04 @C11 @C17
             assert(self.rel(ref_step(opcode, RefArg { idx: 0 }, r))); // @C17
             assert(self.emit_post(old(self), r, opcode, opcode, RefArg { idx: 0 }, chunk));
@@ -1098,7 +1108,7 @@ pub fn get_random_module(&self, source: &mut GenerationSource) -> (r: Result<VfT
         proof {
             let chunk = self.output@.subrange(old(self).output@.len() as int, self.output@.len() as int);
             assert(self.output@ =~= old(self).output@ + chunk);
-            assert(chunk.len() >= 1 && chunk[0] == ref_code(opcode) as u8); // @C11 @C04 @C12 @C17
+            assert(chunk.len() >= 1 && chunk[0] == ref_code(opcode) as u8); // @C11 @C04 @C12? @C17
             if opcode == OpcodeKind::String || opcode == OpcodeKind::Unicode { assert(chunk.subrange(1, chunk.len() as int) =~= gtext); }
             assert(enc_ok(opcode, chunk)); // @C04 @C11 @C17
             assert(self.rel(ref_step(opcode, RefArg { idx: 0 }, r))); // @C17
@@ -1232,7 +1242,7 @@ pub fn get_random_module(&self, source: &mut GenerationSource) -> (r: Result<VfT
             assert(self.output@ =~= old(self).output@ + chunk);
             assert(chunk.subrange(1, chunk.len() as int) =~= gtext);
             assert(enc_ok(opcode, chunk)); // @C04 @C11 @C17
-            assert(chunk.len() >= 1 && chunk[0] == ref_code(opcode) as u8); // @C04 @C11 @C12 @C17
+            assert(chunk.len() >= 1 && chunk[0] == ref_code(opcode) as u8); // @C04 @C11 @C12? @C17
             assert(self.rel(ref_step(opcode, RefArg { idx: 0 }, r))); // @C17
             assert(self.emit_post(old(self), r, opcode, opcode, RefArg { idx: 0 }, chunk));
         }
@@ -1243,7 +1253,7 @@ pub fn get_random_module(&self, source: &mut GenerationSource) -> (r: Result<VfT
         proof {
             let chunk = self.output@.subrange(old(self).output@.len() as int, self.output@.len() as int);
             assert(self.output@ =~= old(self).output@ + chunk);
-            assert(chunk.len() >= 1 && chunk[0] == ref_code(opcode) as u8); // @C04 @C11 @C12 @C17
+            assert(chunk.len() >= 1 && chunk[0] == ref_code(opcode) as u8); // @C04 @C11 @C12? @C17
             assert(self.rel(ref_step(opcode, RefArg { idx: 0 }, r))); // @C17
             assert(self.emit_post(old(self), r, opcode, opcode, RefArg { idx: 0 }, chunk));
         }
@@ -1277,7 +1287,7 @@ pub fn get_random_module(&self, source: &mut GenerationSource) -> (r: Result<VfT
             assert(self.output@ =~= old(self).output@ + chunk);
             assert(chunk.subrange(1, chunk.len() as int) =~= gtext);
             assert(enc_ok(opcode, chunk)); // @C04 @C11 @C17
-            assert(chunk.len() >= 1 && chunk[0] == ref_code(opcode) as u8); // @C04 @C11 @C12 @C17
+            assert(chunk.len() >= 1 && chunk[0] == ref_code(opcode) as u8); // @C04 @C11 @C12? @C17
             assert(ref_pre(opcode, ga, r)); // @C02 @C01
             assert(self.rel(ref_step(opcode, ga, r))); // @C17 @C02
             assert(self.emit_post(old(self), r, opcode, opcode, ga, chunk));
@@ -1291,7 +1301,7 @@ pub fn get_random_module(&self, source: &mut GenerationSource) -> (r: Result<VfT
             let ga = RefArg { idx: old(self).state.memo@.len() as int };
             let chunk = self.output@.subrange(old(self).output@.len() as int, self.output@.len() as int);
             assert(self.output@ =~= old(self).output@ + chunk);
-            assert(chunk.len() >= 1 && chunk[0] == ref_code(opcode) as u8); // @C04 @C11 @C12 @C17
+            assert(chunk.len() >= 1 && chunk[0] == ref_code(opcode) as u8); // @C04 @C11 @C12? @C17
             assert(ref_pre(opcode, ga, r)); // @C02 @C01
             assert(self.rel(ref_step(opcode, ga, r))); // @C17 @C02
             assert(self.emit_post(old(self), r, opcode, opcode, ga, chunk));
@@ -1306,7 +1316,7 @@ pub fn get_random_module(&self, source: &mut GenerationSource) -> (r: Result<VfT
             let ga = RefArg { idx: old(self).state.memo@.len() as int };
             let chunk = self.output@.subrange(old(self).output@.len() as int, self.output@.len() as int);
             assert(self.output@ =~= old(self).output@ + chunk);
-            assert(chunk.len() >= 1 && chunk[0] == ref_code(opcode) as u8); // @C04 @C11 @C12 @C17
+            assert(chunk.len() >= 1 && chunk[0] == ref_code(opcode) as u8); // @C04 @C11 @C12? @C17
             assert(ref_pre(opcode, ga, r)); // @C02 @C01
             assert(self.rel(ref_step(opcode, ga, r))); // @C17 @C02
             assert(self.emit_post(old(self), r, opcode, opcode, ga, chunk));
@@ -1322,9 +1332,9 @@ pub fn get_random_module(&self, source: &mut GenerationSource) -> (r: Result<VfT
                 proof {
                     assert(keys@.len() > 0);
                     // C07: whatever order the hash map enumerated its keys in, the index is chosen from the canonical sequence
-                    assert(is_canon(keys@, self.state.memo@.dom())); // @C07
+                    assert(is_canon(keys@, self.state.memo@.dom())); // @C07?
                     lemma_canon_unique(keys@, canon(self.state.memo@.dom()), self.state.memo@.dom());
-                    assert(keys@ =~= canon(self.state.memo@.dom())); // @C07
+                    assert(keys@ =~= canon(self.state.memo@.dom())); // @C07?
                 }
 //@after 1 let index = keys[
                     proof { assert(keys@.contains(index)); }
@@ -1339,7 +1349,7 @@ pub fn get_random_module(&self, source: &mut GenerationSource) -> (r: Result<VfT
             assert(self.output@ =~= old(self).output@ + chunk);
             assert(chunk.subrange(1, chunk.len() as int) =~= gtext);
             assert(enc_ok(opcode, chunk)); // @C04 @C11 @C17
-            assert(chunk.len() >= 1 && chunk[0] == ref_code(opcode) as u8); // @C04 @C11 @C12 @C17
+            assert(chunk.len() >= 1 && chunk[0] == ref_code(opcode) as u8); // @C04 @C11 @C12? @C17
             assert(self.rel(ref_step(opcode, RefArg { idx: gidx }, r))); // @C17 @C02 @C01
             assert(self.emit_post(old(self), r, opcode, opcode, RefArg { idx: gidx }, chunk));
         }
@@ -1355,9 +1365,9 @@ pub fn get_random_module(&self, source: &mut GenerationSource) -> (r: Result<VfT
                 proof {
                     assert(valid_indices@.contains(0usize)); assert(valid_indices@.len() > 0);
                     let ghost small = self.state.memo@.dom().filter(|k: usize| k < 256);
-                    assert(is_canon(valid_indices@, small)); // @C07
+                    assert(is_canon(valid_indices@, small)); // @C07?
                     lemma_canon_unique(valid_indices@, canon(small), small);
-                    assert(valid_indices@ =~= canon(small)); // @C07
+                    assert(valid_indices@ =~= canon(small)); // @C07?
                 }
 //@after 1 let index = valid_indices[
                     proof { assert(valid_indices@.contains(index)); }
@@ -1367,7 +1377,7 @@ pub fn get_random_module(&self, source: &mut GenerationSource) -> (r: Result<VfT
         proof {
             let chunk = self.output@.subrange(old(self).output@.len() as int, self.output@.len() as int);
             assert(self.output@ =~= old(self).output@ + chunk);
-            assert(chunk.len() >= 1 && chunk[0] == ref_code(opcode) as u8); // @C04 @C11 @C12 @C17
+            assert(chunk.len() >= 1 && chunk[0] == ref_code(opcode) as u8); // @C04 @C11 @C12? @C17
             assert(self.rel(ref_step(opcode, RefArg { idx: gidx }, r))); // @C17 @C02 @C01
             assert(self.emit_post(old(self), r, opcode, opcode, RefArg { idx: gidx }, chunk));
         }
@@ -1382,9 +1392,9 @@ pub fn get_random_module(&self, source: &mut GenerationSource) -> (r: Result<VfT
                 proof {
                     assert(keys@.len() > 0);
                     // C07: whatever order the hash map enumerated its keys in, the index is chosen from the canonical sequence
-                    assert(is_canon(keys@, self.state.memo@.dom())); // @C07
+                    assert(is_canon(keys@, self.state.memo@.dom())); // @C07?
                     lemma_canon_unique(keys@, canon(self.state.memo@.dom()), self.state.memo@.dom());
-                    assert(keys@ =~= canon(self.state.memo@.dom())); // @C07
+                    assert(keys@ =~= canon(self.state.memo@.dom())); // @C07?
                 }
 //@after 1 let index = keys[
                     proof { assert(keys@.contains(index)); }
@@ -1394,7 +1404,7 @@ pub fn get_random_module(&self, source: &mut GenerationSource) -> (r: Result<VfT
         proof {
             let chunk = self.output@.subrange(old(self).output@.len() as int, self.output@.len() as int);
             assert(self.output@ =~= old(self).output@ + chunk);
-            assert(chunk.len() >= 1 && chunk[0] == ref_code(opcode) as u8); // @C04 @C11 @C12 @C17
+            assert(chunk.len() >= 1 && chunk[0] == ref_code(opcode) as u8); // @C04 @C11 @C12? @C17
             assert(self.rel(ref_step(opcode, RefArg { idx: gidx }, r))); // @C17 @C02 @C01
             assert(self.emit_post(old(self), r, opcode, opcode, RefArg { idx: gidx }, chunk));
         }
@@ -1405,7 +1415,7 @@ pub fn get_random_module(&self, source: &mut GenerationSource) -> (r: Result<VfT
         proof {
             let chunk = self.output@.subrange(old(self).output@.len() as int, self.output@.len() as int);
             assert(self.output@ =~= old(self).output@ + chunk);
-            assert(chunk.len() >= 1 && chunk[0] == ref_code(opcode) as u8); // @C04 @C11 @C12 @C17
+            assert(chunk.len() >= 1 && chunk[0] == ref_code(opcode) as u8); // @C04 @C11 @C12? @C17
             assert(self.rel(ref_step(opcode, RefArg { idx: 0 }, r))); // @C17
             assert(self.emit_post(old(self), r, opcode, opcode, RefArg { idx: 0 }, chunk));
         }
@@ -1417,7 +1427,7 @@ pub fn get_random_module(&self, source: &mut GenerationSource) -> (r: Result<VfT
         proof {
             let chunk = self.output@.subrange(old(self).output@.len() as int, self.output@.len() as int);
             assert(self.output@ =~= old(self).output@ + chunk);
-            assert(chunk.len() >= 1 && chunk[0] == ref_code(opcode) as u8); // @C04 @C11 @C12 @C17
+            assert(chunk.len() >= 1 && chunk[0] == ref_code(opcode) as u8); // @C04 @C11 @C12? @C17
             assert(self.rel(ref_step(opcode, RefArg { idx: 0 }, r))); // @C17
             assert(self.emit_post(old(self), r, opcode, opcode, RefArg { idx: 0 }, chunk));
         }
@@ -1429,7 +1439,7 @@ pub fn get_random_module(&self, source: &mut GenerationSource) -> (r: Result<VfT
         proof {
             let chunk = self.output@.subrange(old(self).output@.len() as int, self.output@.len() as int);
             assert(self.output@ =~= old(self).output@ + chunk);
-            assert(chunk.len() >= 1 && chunk[0] == ref_code(opcode) as u8); // @C04 @C11 @C12 @C17
+            assert(chunk.len() >= 1 && chunk[0] == ref_code(opcode) as u8); // @C04 @C11 @C12? @C17
             assert(self.rel(ref_step(opcode, RefArg { idx: 0 }, r))); // @C17
             assert(self.emit_post(old(self), r, opcode, opcode, RefArg { idx: 0 }, chunk));
         }
@@ -1445,7 +1455,7 @@ pub fn get_random_module(&self, source: &mut GenerationSource) -> (r: Result<VfT
             assert(self.output@ =~= old(self).output@ + chunk);
             assert(chunk.subrange(1, chunk.len() as int) =~= gtext);
             assert(enc_ok(opcode, chunk)); // @C04 @C11 @C17
-            assert(chunk.len() >= 1 && chunk[0] == ref_code(opcode) as u8); // @C04 @C11 @C12 @C17
+            assert(chunk.len() >= 1 && chunk[0] == ref_code(opcode) as u8); // @C04 @C11 @C12? @C17
             assert(self.rel(ref_step(opcode, RefArg { idx: 0 }, r))); // @C17
             assert(self.emit_post(old(self), r, opcode, opcode, RefArg { idx: 0 }, chunk));
         }
@@ -1460,7 +1470,7 @@ pub fn get_random_module(&self, source: &mut GenerationSource) -> (r: Result<VfT
             assert(self.output@ =~= old(self).output@ + chunk);
             assert(chunk.subrange(1, chunk.len() as int) =~= gtext);
             assert(enc_ok(opcode, chunk)); // @C04 @C11 @C17
-            assert(chunk.len() >= 1 && chunk[0] == ref_code(opcode) as u8); // @C04 @C11 @C12 @C17
+            assert(chunk.len() >= 1 && chunk[0] == ref_code(opcode) as u8); // @C04 @C11 @C12? @C17
             assert(self.rel(ref_step(opcode, RefArg { idx: 0 }, r))); // @C17
             assert(self.emit_post(old(self), r, opcode, opcode, RefArg { idx: 0 }, chunk));
         }
@@ -1537,13 +1547,13 @@ pub fn get_random_module(&self, source: &mut GenerationSource) -> (r: Result<VfT
         forall|i: int| 0 <= i < res@.len() ==> self.guard_ok(#[trigger] res@[i], r) && ref_proto(res@[i]) <= ver_num(self.state.version), // @C05 @C01
         res@.len() > 0, // @C11
         // C12: no opcode of the protocol's vocabulary is dropped from the candidates in a state where its guard must say yes
-        forall|op: OpcodeKind| ref_proto(op) <= ver_num(self.state.version) && self.witness(op) ==> #[trigger] res@.contains(op), // @C12
+        forall|op: OpcodeKind| ref_proto(op) <= ver_num(self.state.version) && self.witness(op) ==> #[trigger] res@.contains(op), // @C12?
 //@loop 1
             invariant
                 self.rel(r),
                 vf_i <= all_opcodes@.len(),
                 forall|op: OpcodeKind| ref_proto(op) <= ver_num(self.state.version) ==> #[trigger] all_opcodes@.contains(op),
-                forall|j: int| 0 <= j < vf_i && self.witness(#[trigger] all_opcodes@[j]) ==> vf_out@.contains(all_opcodes@[j]), // @C12
+                forall|j: int| 0 <= j < vf_i && self.witness(#[trigger] all_opcodes@[j]) ==> vf_out@.contains(all_opcodes@[j]), // @C12?
                 forall|i: int| 0 <= i < all_opcodes@.len() ==> ref_proto(#[trigger] all_opcodes@[i]) <= ver_num(self.state.version),
                 forall|i: int| 0 <= i < vf_out@.len() ==> self.guard_ok(#[trigger] vf_out@[i], r) && ref_proto(vf_out@[i]) <= ver_num(self.state.version),
                 forall|j: int| 0 <= j < vf_i && all_opcodes@[j] == OpcodeKind::None ==> vf_out@.len() > 0,
@@ -1578,8 +1588,11 @@ pub fn get_random_module(&self, source: &mut GenerationSource) -> (r: Result<VfT
 //@contract
     ensures
         opcodes@.len() > 0 ==> opcodes@.contains(res),
-        // C12: the alternative taken is exactly the one the entropy source drew (every candidate can be chosen: u9_*_onto)
-        opcodes@.len() > 0 ==> res == opcodes@[old(source).draw_index(opcodes.len()) as int], // @C12
+        // C12: the alternative taken is exactly the one an index draw over the WHOLE candidate list selected (choose_index(len) or
+        // the equivalent gen_range(0, len); both are onto in fuzzer mode: u9_arb_choose_index_onto / u9_arb_gen_range_onto),
+        // so every candidate can be chosen.  Which of the two draws is used is not the property's business.
+        opcodes@.len() > 0 ==> res == opcodes@[old(source).draw_index(opcodes.len()) as int]
+            || res == opcodes@[old(source).draw_range(0, opcodes.len()) as int], // @C12?
 //@endfn
 
     /// every body chunk is non-empty and starts with the byte of the opcode the trace records for it
@@ -1695,7 +1708,7 @@ pub fn get_random_module(&self, source: &mut GenerationSource) -> (r: Result<VfT
         let ghost a0 = RefArg { idx: 0 };
 //@before 1 self.emit_proto(source)
         // C12: for protocols >= 4 framing is decided by a coin drawn from the entropy source (both outcomes occur: u9_*_gen_bool_both)
-        proof { assert(ver_num(self.state.version) >= 4 ==> use_frame == source.last_bool()); } // @C12
+        proof { assert(ver_num(self.state.version) >= 4 ==> use_frame == source.last_bool()); } // @C12?
 //@before 1 let mut vf_i: usize = 0;
         let ghost hdr0 = self.output@;
         let ghost h = Generator::hdr_len(ver_num(self.state.version), use_frame);
@@ -2321,7 +2334,7 @@ pub fn get_random_module(&self, source: &mut GenerationSource) -> (r: Result<VfT
         let ghost a0 = RefArg { idx: 0 };
 //@before 1 self.emit_proto(source)
         // C12: for protocols >= 4 framing is decided by a coin drawn from the entropy source (both outcomes occur: u9_*_gen_bool_both)
-        proof { assert(ver_num(self.state.version) >= 4 ==> use_frame == source.last_bool()); } // @C12
+        proof { assert(ver_num(self.state.version) >= 4 ==> use_frame == source.last_bool()); } // @C12?
 //@before 1 let mut vf_i: usize = 0;
         let ghost hdr0 = self.output@;
         let ghost h = Generator::hdr_len(ver_num(self.state.version), use_frame);
@@ -2405,12 +2418,11 @@ pub fn get_random_module(&self, source: &mut GenerationSource) -> (r: Result<VfT
         &&& (ext || self.allow_ext_opcodes == o.allow_ext_opcodes)
         &&& (buf || self.allow_buffer_opcodes == o.allow_buffer_opcodes)
     }
-    /// the documented defaults (README / rustdoc of Generator): nothing opted in
+    /// what the properties need from a freshly constructed generator: nothing opted in (C10: "default output never requires an
+    /// extension registry or buffer callbacks") and no output yet.  The numeric defaults (60..300 opcodes, rate 0.1), the absence
+    /// of a seed and of mutators are documented behaviour but no property depends on them, so they are deliberately NOT stated:
+    /// changing a default must not raise an alarm.
     pub open spec fn is_default_config(&self) -> bool {
-        &&& self.seed is None && self.bufsize is None
-        &&& self.min_opcodes == 60 && self.max_opcodes == 300
-        &&& vf_mutators_len_spec(&self.mutators) == 0
-        &&& !self.unsafe_mutations
         &&& !self.allow_ext_opcodes   // @C10
         &&& !self.allow_buffer_opcodes   // @C10
         &&& self.output@.len() == 0
